@@ -57,7 +57,7 @@ Saved(c, c2) == c2.nkeys > c.nkeys \/ (c2.kib = c.kib /\ c.kib > 0 /\ LastKey(c2
 Catalogue == {"short_block_saved",            \* the trailing partial undo block of a device (length not a multiple of tdb)
               "reopen_short_last_key",        \* chain: the file that is reopened ends with such a key
               "append_after_short_last_key",  \* ... and the new run saves a block behind it
-              "rewrite_after_short_reopen",   \* ... and the new run writes into that partial block again (already saved)
+              "rewrite_after_short_reopen",   \* a reopened run writes into the partial block an earlier run saved: nothing is saved
               "reopen_full_key_block",        \* chain: the last key block of the reopened file is full
               "append_after_full_key_block",
               "reopen_partial_key_block",     \* chain: the new run continues the last key block
@@ -77,7 +77,7 @@ CatCall == LET first == nruns >= 2 /\ ch.nkeys = k0          \* nothing saved ye
                sv == Saved(ch, ch')
            IN (IF \E i \in 1..ch'.kib : ch'.keyb[i].size % ch'.tdb # 0 THEN {"short_block_saved"} ELSE {})
               \cup (IF first /\ sv /\ ShortLast(ch) THEN {"append_after_short_last_key"} ELSE {})
-              \cup (IF nruns >= 2 /\ ~sv /\ E.ret = 0 /\ ShortLast(ch) /\ ch.nkeys = k0
+              \cup (IF nruns >= 2 /\ ~sv /\ E.ret = 0 /\ ch.nkeys = k0 /\ ch.tdb >= 1 /\ len % ch.tdb # 0
                        /\ OpLast(ch, CallBlk(ch, E.e, E.a, E.n), CallCnt(ch, E.e, E.a, E.n)) * ch.tdb + ch.tdb > len
                     THEN {"rewrite_after_short_reopen"} ELSE {})
               \cup (IF first /\ sv /\ ch.kib = 0 /\ ch.nkeys > 0 THEN {"append_after_full_key_block"} ELSE {})
